@@ -273,6 +273,73 @@ def run_context(ctx, attr):
                         'debug': debug, 'got': got, 'want': want})
 
 
+def run_copied(ctx, route):
+    """A rule set that has been used is copied -- a deep copy kept as a
+    snapshot and put back with set_rules, a pickle round trip, the
+    registered defaults of one enforcer handed to a second one -- and the
+    copy decides like the original: generic checks on credential paths and
+    on literals alike."""
+    import copy
+    import pickle
+    from oslo_policy import policy
+    common.set_ctx(ctx)
+    texts = {'own': 'project_id:%(project_id)s', 'deep': 'a.b.c:x',
+             'fan': 'groups.name:dev', 'lit': "'x':%(k)s",
+             'none': 'None:%(n)s', 'both': 'a.b.c:x and not project_id:p2'}
+    creds = {'project_id': str(ctx.choice('pid', ['p1', 'p2'])),
+             'a': {'b': {'c': str(ctx.choice('c', ['x', 'y']))}},
+             'groups': [{'name': str(ctx.choice('g', ['dev', 'ops']))},
+                        {'name': 'qa'}]}
+    target = {'project_id': 'p1', 'k': str(ctx.choice('k', ['x', 'z'])),
+              'n': None}
+
+    def decide(enf):
+        return {n: bool(enf.enforce(n, dict(target), copy.deepcopy(creds)))
+                for n in sorted(texts)}
+    enf = common.mk_enforcer(rules=policy.Rules.from_dict(texts))
+    used = bool(ctx.bool('used_before_the_copy'))
+    before = decide(enf) if used else None
+    if route == 'deepcopy-rollback':
+        snap = copy.deepcopy(enf.rules)
+        enf.set_rules({'own': '!'})
+        enf.set_rules(snap)
+        after = decide(enf)
+    elif route == 'pickle-roundtrip':
+        blob = pickle.dumps(enf.rules)
+        enf.clear()
+        enf.set_rules(pickle.loads(blob))
+        after = decide(enf)
+    elif route == 'copy-copy':
+        other = common.mk_enforcer(rules=copy.copy(enf.rules))
+        after = decide(other)
+    else:
+        first = common.mk_enforcer()
+        first.register_defaults([policy.RuleDefault(n, t)
+                                 for n, t in sorted(texts.items())])
+        for n, d in first.registered_rules.items():
+            first.rules[n] = d.check
+        if used:
+            decide(first)
+        second = common.mk_enforcer()
+        second.register_defaults(list(first.registered_rules.values()))
+        for n, d in second.registered_rules.items():
+            second.rules[n] = d.check
+        after = decide(second)
+    want = decide(common.mk_enforcer(rules=policy.Rules.from_dict(texts)))
+    ctx.cover('copied:' + route)
+    ctx.observe('decisions', after)
+    ctx.require(after == want and (before is None or before == want),
+                'copied:copy-decides-differently',
+                detail={'route': route, 'used_before': used,
+                        'creds': repr(creds), 'target': repr(target),
+                        'copy': after, 'fresh': want, 'before': before})
+
+
+def cubes_copied(tier, seed):
+    return [{'route': r} for r in ('deepcopy-rollback', 'pickle-roundtrip',
+                                   'copy-copy', 'second-enforcer')]
+
+
 def cubes_context(tier, seed):
     return [{'attr': a} for a in CTX_ATTRS]
 
@@ -326,14 +393,16 @@ def cubes_generic(tier, seed):
 HARNESSES = {'generic': {'fn': run_generic, 'cubes': cubes_generic,
                          'concretize_limit': 3000000},
             'names': {'fn': run_names, 'cubes': cubes_names},
-            'context': {'fn': run_context, 'cubes': cubes_context}}
+            'context': {'fn': run_context, 'cubes': cubes_context},
+            'copied': {'fn': run_copied, 'cubes': cubes_copied}}
 REQUIRED_COVER = ['literal', 'path', 'allowed', 'denied',
                   'missing-target-key', 'dont-care', 'names:evaluated',
-                  'context:evaluated', 'context:debug']
+                  'context:evaluated', 'context:debug',
+                  'copied:deepcopy-rollback', 'copied:second-enforcer']
 
 
 def cube_weight(h, p):
-    if h in ('names', 'context'):
+    if h in ('names', 'context', 'copied'):
         return 500
     w = 8 ** p['lhs'].count('.') * (3 if p['rhs_kind'] != 'literal' else 1)
     if p.get('top') == 'list':
